@@ -1,5 +1,6 @@
 mod core;
 mod gen_diff;
+mod gen_lookup;
 mod gen_src;
 mod gen_val;
 mod rng;
@@ -24,6 +25,7 @@ fn main() -> anyhow::Result<()> {
             let rows = core::par_cases(a.n, a.seed, |ctx, seed, i| gen_diff::generate(ctx, seed, i, &mode));
             core::write_out(&a.out, &rows)
         }
+        Some("lookup") => core::write_out(&a.out, &gen_lookup::rows(a.seed, a.n)),
         Some("multi") => {
             let flags = a.rest.first().map(|s| s == "flags").unwrap_or(false);
             let rows = core::par_cases(a.n, a.seed, |ctx, seed, i| gen_src::generate_multi(ctx, seed, i, flags));
